@@ -19,11 +19,12 @@ ap.add_argument('results')
 ap.add_argument('-j', type=int, default=6)
 ap.add_argument('--only', nargs='*', default=[])
 ap.add_argument('--no-tests', action='store_true')
+ap.add_argument('--base', default='HEAD', help='commit of /repo the changes were written against')
 ap.add_argument('--no-checks', action='store_true')
 a = ap.parse_args()
 BASE = '/tmp/yarel_round_%d' % os.getpid()
 os.makedirs(BASE, exist_ok=True)
-HEAD = subprocess.run(['git', '-C', '/repo', 'rev-parse', 'HEAD'], capture_output=True, text=True).stdout.strip()
+HEAD = subprocess.run(['git', '-C', '/repo', 'rev-parse', a.base], capture_output=True, text=True).stdout.strip()
 
 
 def sh(cmd, cwd=None, env=None, timeout=None):
